@@ -29,6 +29,7 @@ ASSUMPTIONS = ['the stream of a generator position is uninterpreted in the theor
 # families whose parameters may be per-agent arrays / callables, and which parameter is varied
 DYN_PAR = dict(uniform='high', normal='loc', lognorm_ex='mean', lognorm_im='mean', expon='scale', poisson='lam',
                weibull='scale', gamma='scale', constant='v', bernoulli='p', nbinom='p')
+TP_CALLABLE = ('bernoulli', 'normal', 'expon')     # families exercised with a time-wrapped callable parameter
 
 
 def par_table(fam, n, rng):
@@ -52,6 +53,13 @@ def make(fam, mode, slots, trace, seed, table=None, req=None):
     """ A real, initialised dist of the family; parameters by mode """
     import starsim as ss
     pars = dict(impl.DIST_PARS[fam])
+    if mode == 'tp_callable':
+        # a time-wrapped callable parameter: ss.time_prob(f) for a Bernoulli probability, ss.dur(f) elsewhere
+        key = DYN_PAR[fam]; tab = np.asarray(table)
+        f = lambda module, sim, uids: tab if uids is None else tab[np.asarray(uids, dtype=int)]
+        tp = (ss.time_prob if fam == 'bernoulli' else ss.dur)(f, unit='year', parent_unit='year', parent_dt=0.5)
+        tp.init(update_values=False)
+        pars[key] = tp
     if mode in ('array', 'callable'):
         key = DYN_PAR[fam]
         if mode == 'array':
@@ -73,6 +81,8 @@ def play_history(d, hist, dyn_req=None):
     for h in hist:
         if h[0] == 'jumpdt':
             d.jump_dt(ti=h[1]); lines.append(f'jumpdt {h[1]} 0')
+        elif h[0] == 'drawu':
+            d.rvs(ss.uids(h[1])); lines.append(f'rvs {int(d.slots[np.asarray(h[1], dtype=int)].max()) + 1 if len(h[1]) else 0} 0')
         elif h[0] == 'burst':
             # a long earlier history: many more calls than any test makes
             for _ in range(h[1]):
@@ -107,7 +117,7 @@ def gen_history(rng):
 
 def gen_case(rng, families):
     fam = rng.choice(families)
-    modes = ['scalar'] + (['array', 'callable'] if fam in DYN_PAR else [])
+    modes = ['scalar'] + (['array', 'callable'] if fam in DYN_PAR else []) + (['tp_callable', 'tp_callable'] if fam in TP_CALLABLE else [])
     mode = rng.choice(modes)
     n = rng.randint(4, 25)
     slots = [rng.randint(0, 3 * n) for _ in range(n)] if rng.random() < 0.6 else list(range(n))
@@ -307,6 +317,7 @@ def oracle_case(c):
     fam, mode = c['family'], c['mode']
     slots = np.array(c['slots']); n = c['n']
     table = par_table(fam, n, pyrandom.Random(c['tabseed'])) if mode != 'scalar' else None
+    if mode == 'tp_callable' and fam == 'bernoulli': table = np.clip(table, 0.01, 0.9)
     allu = list(range(n))
     def draw(req, hist, slots_=slots):
         d = make(fam, mode, slots_, c['trace'], c['seed'], table, req)
@@ -329,6 +340,18 @@ def oracle_case(c):
             sub2 = draw(req, hist2)
             if not same(sub2, sub):
                 return dict(signature=dict(sig, relation='history'), what=f'ss.{fam} ({mode}): values change when more was drawn in earlier timesteps')
+        # per-agent parameters: OTHER agents (another group of the same size, then one of another size) drawn in earlier steps
+        if early and mode in ('callable', 'tp_callable') and n >= 3:
+            k = len(req)
+            other1 = [(u + 1) % n for u in req]
+            other2 = [u for u in allu if u not in req][: max(1, (k + 1) % n)] or allu[:1]
+            hist6 = [early[0]] + [('drawu', other1)] + early[1:] + [('drawu', other2)] + hist[last_jump:]
+            try:
+                sub6 = draw(req, hist6)
+            except Exception as e:
+                return dict(signature=dict(sig, relation='history-other-agents'), what=f'ss.{fam} ({mode}): after draws for other agents in earlier timesteps the request raises {type(e).__name__}: {e}')
+            if not same(sub6, sub):
+                return dict(signature=dict(sig, relation='history-other-agents'), what=f'ss.{fam} ({mode}): values change when OTHER agents were drawn in earlier timesteps')
         # no earlier history at all: a fresh distribution jumped straight to the final step
         if last_jump > 0:
             sub5 = draw(req, hist[last_jump:])
@@ -396,6 +419,9 @@ def oracle_extension_births(cfg):
         """ grows k isolated agents on its first step and keeps every non-original agent neutral """
         def __init__(self, k, slot0, **kw):
             super().__init__(**kw); self.k = k; self.slot0 = slot0; self.extras = None
+            # a per-agent state whose default is a random draw (like DiskNet's positions or a mixing pool's contacts):
+            # what a newborn receives must depend on its slot only, not on how many agents were created before it
+            self.define_states(ss.FloatArr('mark', default=ss.random(name='markdist')))
         def step(self):
             ppl = self.sim.people
             if self.extras is None:
@@ -419,12 +445,14 @@ def oracle_extension_births(cfg):
         sim.init(); sim.run()
         ppl = sim.people
         parent = np.asarray(ppl.parent.raw[:ppl.uid.len_used]); slot = np.asarray(ppl.slot.raw[:ppl.uid.len_used])
-        births = {}
+        births = {}; marks = {}
+        mark = np.asarray(sim.interventions['addiso'].mark.raw[:ppl.uid.len_used])
         for u in range(n, len(parent)):
             p = parent[u]
             if p == p and 0 <= p < n:      # children of original mothers, in birth order per mother
                 births.setdefault(int(p), []).append(int(slot[u]))
-        out = dict(births=births)
+                marks.setdefault(int(p), []).append(float(mark[u]))
+        out = dict(births=births, marks=marks)
         for dis in sim.diseases():
             for st in ('ti_infected', 'susceptible', 'infected'):
                 out[f'{dis.name}.{st}'] = np.asarray(getattr(dis, st).raw[:n]).copy()
@@ -434,8 +462,12 @@ def oracle_extension_births(cfg):
         m = next(mm for mm in sorted(set(a['births']) | set(b['births'])) if a['births'].get(mm) != b['births'].get(mm))
         return dict(signature=dict(oracle='extension', network='births-slots'),
                     what=f"adding {k} isolated agents (slots {slot0}..{slot0 + k - 1}) changed the slots given to the children of original mother {m}: {a['births'].get(m)} vs {b['births'].get(m)}")
+    if a['marks'] != b['marks']:
+        m = next(mm for mm in sorted(set(a['marks']) | set(b['marks'])) if a['marks'].get(mm) != b['marks'].get(mm))
+        return dict(signature=dict(oracle='extension', network='births-state-default'),
+                    what=f"adding {k} isolated agents changed the random state default received by the children of original mother {m} (same slots {a['births'].get(m)}): {a['marks'].get(m)} vs {b['marks'].get(m)}")
     for key in a:
-        if key != 'births' and not same(a[key], b[key]):
+        if key not in ('births', 'marks') and not same(a[key], b[key]):
             return dict(signature=dict(oracle='extension', network='births-history'),
                         what=f"adding {k} isolated agents changed `{key}` of original agents")
     return None
